@@ -38,7 +38,7 @@ ASSUMPTIONS = [
 def case_strategy(draw):
     from props.c02_creation import chunksize_for
 
-    n = draw(st.integers(1, 200))
+    n = draw(st.one_of(st.integers(1, 200), st.integers(1, 200), st.integers(200, 600)))
     source = draw(st.sampled_from(["frame", "frame", "hdf5", "parquet", "fits", "random"]))
     mode = draw(st.sampled_from(["centers", "ids", "num"])) if source != "random" else draw(st.sampled_from(["centers", "num"]))
     if mode == "num" and n < 30:
@@ -52,6 +52,10 @@ def case_strategy(draw):
         case["pid"] = draw(st.lists(st.integers(0, 2), min_size=n, max_size=n))
     if source == "random":
         case["probe"] = draw(st.integers(min(n, 30), n)) if mode == "num" else None
+    elif mode == "num":
+        # size of the sample from which centres are generated: default, or explicit from sparse
+        # (a small fraction of the input) to the whole input
+        case["probe"] = draw(st.one_of(st.none(), st.integers(20, max(20, n // 10)), st.integers(20, max(20, n))))
     return case
 
 
@@ -150,6 +154,9 @@ def run_case(case):
         kw["patch_centers"] = AngularCoordinates(np.deg2rad([[case["ra"][0], case["dec"][0]]]))
     else:
         kw["patch_num"] = 2
+        if case["source"] != "random" and case.get("probe") is not None:
+            kw["probe_size"] = case["probe"]
+            ck.cls("explicit-probe-size" + (":sparse" if case["probe"] <= n // 10 else ""))
 
     saved = (readers.h5py, readers.parquet, readers.DataChunkReader.__next__)
 
